@@ -286,6 +286,8 @@ pub fn open_existing_file(path: &Path) -> Result<Option<File>, Failed> {
 ///
 /// Create a file if it does not exist, and truncates it if it does.
 pub fn create_file(path: &Path) -> Result<File, Failed> {
+    #[cfg(routinator_verif)]
+    crate::verif::kill_point("fatal.create_file", path);
     File::create(path).map_err(|err| {
         error!(
             "Fatal: failed to open file {}: {}",
@@ -340,6 +342,8 @@ pub fn read_existing_file(path: &Path) -> Result<Option<Vec<u8>>, Failed> {
 /// Errors out if the file cannot be opened for writing or writing fails.
 /// If the file exists, overwrites the current content.
 pub fn write_file(path: &Path, contents: &[u8]) -> Result<(), Failed> {
+    #[cfg(routinator_verif)]
+    crate::verif::kill_point_fs_write("fatal.write_file", path, contents);
     fs::write(path, contents).map_err(|err| {
         error!(
             "Fatal: failed to write file {}: {}",
